@@ -24,12 +24,21 @@ def corpus():
         Case(None, 'corpus/cross-family', ('hist', (('new', 0, 'list', (N(4, top, 32), N(6, 1 << 32, 128))),
                                                    ('new', 1, 'list', (N(4, top, 32),)), ('bin', 2, 0, 1, 'xor'),
                                                    ('q', 2, 0, N(6, 1 << 32, 128))))),
+        # the same with the model coercing the arguments itself (op ipset_raw): strings, ints, int membership
+        c06._case((('new', 0, 'list', (N(4, top, 32, 'int'), N(6, 1 << 32, 128, 'int'))),
+                   ('new', 1, 'list', (N(4, top, 32, 'addrstr'),)), ('bin', 2, 0, 1, 'xor'),
+                   ('q', 2, 0, N(6, 1 << 32, 128, 'int')), ('q', 2, 0, N(6, 1 << 32, 128, 'addrstr')),
+                   ('q', 0, 1, N(4, top - 1, 31, 'maskstr'))), 'corpus/cross-family', raw=True),
     ]
 
 
 def generate(rng, tier):
     n = 1500 if tier == 'quick' else 2500
-    return [Case(None, 'history', ('hist', H.gen_history(rng, tier))) for _ in range(n)]
+    out = []
+    for _ in range(n):
+        raw = rng.random() < 0.3
+        out.append(c06._case(H.gen_history(rng, tier, raw), raw=raw))
+    return out
 
 
 impl = c06.impl
@@ -46,14 +55,17 @@ def oracle(c, got):
         if op[0] == 'q':
             gs, es = g.split(' '), e.split(' ')
             for name, a, b in zip(COLS, gs, es):
-                if a != b:
+                if a != b and b != H.ANY:
                     return 'step %d %r: %s gave %s, set theory gives %s' % (idx, op, name, a, b)
+        elif e == H.RAISES:
+            if not g.startswith('!'):
+                return 'step %d %r: an argument no constructor accepts was taken, set shows %s' % (idx, op, g)
         elif op[0] in ('bin', 'upd'):
             if g != e:
                 return 'step %d %r: result %s, set theory gives %s' % (idx, op, g, e)
             if op[0] == 'bin' and extras[idx].get('operands_unchanged') is False:
                 return 'step %d %r: a non-mutating operator changed an operand' % (idx, op)
-        elif g.startswith('!exc'):
+        elif g.startswith('!') and g != e:
             return 'step %d %r raised %s' % (idx, op, g)
     return None
 
